@@ -1,7 +1,7 @@
 (* C12  The API JSON is a complete, internally consistent inventory (container, serialisation order, ids). *)
 From Coq Require Import List String Ascii ZArith Bool Permutation Sorting.Sorted. Import ListNotations.
 From SV Require Import Lib.Str Model.Types Model.Api Model.FrontSmall Proofs.FrontSmallProofs.
-From SV Require Import Model.View Model.Front Model.Json Proofs.WalkProofs Proofs.JsonProofs.
+From SV Require Import Model.View Model.Front Model.Json Proofs.WalkProofs Proofs.JsonProofs Proofs.ResolveProofs.
 
 (* every top-level list is sorted by id and free of duplicates, whatever the order of registration *)
 Theorem C12_lists_sorted_nodup : forall (V : Type) (ops : list (str * V)),
@@ -55,6 +55,17 @@ Theorem C12_json_lists_sorted : forall v o, front v = Ok o ->
   sorted_nodup a_id (sorted_values a_id (fl_attrs (o_flatd o))) /\
   sorted_nodup p_id (sorted_values p_id (fl_params (o_flatd o))).
 Proof. exact front_json_lists_sorted. Qed.
+(* internal consistency, for every view: every id that a record lists is a key of the flat dictionary of its kind -
+   mod_res K m: the classes, functions and enums listed by module m;  cls_res K c: the methods, the constructor, the attributes
+   and the nested classes listed by class c;  func_res K f: the results and parameters of f;  enum_res K e: the instances of e
+   (K = the key lists of the outcome's dictionaries, outcome_keys) *)
+Theorem C12_front_ids_resolve : forall v o, front v = Ok o ->
+  let K := outcome_keys o in
+  Forall (mod_res K) (api_modules (o_api o)) /\
+  Forall (fun kv : str * cls => cls_res K (snd kv)) (api_classes (o_api o)) /\
+  Forall (fun kv : str * func => func_res K (snd kv)) (fl_functions (o_flatd o)) /\
+  Forall (fun kv : str * enum_ => enum_res K (snd kv)) (fl_enums (o_flatd o)).
+Proof. exact front_ids_resolve. Qed.
 Print Assumptions C12_lists_sorted_nodup.
 Print Assumptions C12_lists_complete.
 Print Assumptions C12_id_form.
@@ -62,3 +73,4 @@ Print Assumptions C12_front_module_ids.
 Print Assumptions C12_front_single_owner.
 Print Assumptions C12_front_class_ids.
 Print Assumptions C12_json_lists_sorted.
+Print Assumptions C12_front_ids_resolve.
